@@ -18,13 +18,13 @@ import (
 
 // Errors returned by the transport.
 var (
-	ErrClosed = errors.New("simnet: use of closed transport")
-	ErrPeer   = io.ErrClosedPipe
+	ErrClosed       = errors.New("simnet: use of closed transport")
+	ErrPeer         = io.ErrClosedPipe
 	ErrFault  error = &faultErr{}
 	// ErrFaultTemporary is an injected fault that describes itself as a timeout / temporary
 	// condition (like os.ErrDeadlineExceeded or ETIMEDOUT do); errors.Is(it, ErrFault) holds.
 	ErrFaultTemporary error = &faultErr{temporary: true}
-	ErrReset  = errors.New("simnet: connection reset by peer (injected)")
+	ErrReset                = errors.New("simnet: connection reset by peer (injected)")
 )
 
 var clock int64
@@ -76,8 +76,8 @@ func (f *faultErr) Error() string {
 	}
 	return "simnet: injected fault"
 }
-func (f *faultErr) Timeout() bool       { return f.temporary }
-func (f *faultErr) Temporary() bool     { return f.temporary }
+func (f *faultErr) Timeout() bool        { return f.temporary }
+func (f *faultErr) Temporary() bool      { return f.temporary }
 func (f *faultErr) Is(target error) bool { _, ok := target.(*faultErr); return ok }
 
 // FaultKind enumerates injected fail-stop faults.
